@@ -218,6 +218,33 @@ def all_obligations():
              expect=['delta window accepted by the table-driven decoder stays within', 'delta window rejected by the table-driven'],
              canaries=['CANARY delta accept path reached'], replayable=True, stream_replay='delta'))
 
+    for mx, tier in ((6, 'quick'), (12, 'thorough')):
+        A(Ob(name=f'decode.make_tree_kraft.as{mx}', props=['C05', 'C06', 'C08'], kind='bounded', harness='h_decode.c', entry='h_make_tree_kraft', defines={'KRAFT_MAX_AS': str(mx), 'KRAFT_T': '5' if mx == 6 else '0'}, tier=tier,
+             bound=f'alphabet size 3..{mx} (symbolic), every length 1..20 symbolic; the by-length summation of the code is compared with the by-symbol definition, an equivalence '
+                   'SAT only decides for small alphabets (258 symbols: no result in 900 s)',
+             what='make_tree(): the table is accepted iff its Kraft sum is exactly 1, marked ERR_INCOMPLT iff below, ERR_PREFIX iff above '
+                  '(reference: the sum of 2^(20-len) computed from the definition)',
+             functions=['make_tree (counting + completeness test)'], flags=['--unwind', '24', '--unwinding-assertions'], timeout=900,
+             expect=['a complete prefix code', 'an incomplete code', 'an oversubscribed code'], replayable=True))
+    for j in (0, 32765):
+        A(Ob(name=f'decode.selector_step.j{j}', props=['C05', 'C06', 'C07', 'C08'], kind='lemma', harness='h_decode.c', entry='h_selector_step', defines={'SEL_J': str(j)},
+             what='every 6-bit selector window of the real retrieve(), for every table count 2..6: accepted iff its unary code value is below the table count '
+                  '(six ones is never a code), stored value = code value, exactly its bits consumed; store index within selector[] up to the 32767th selector',
+             functions=['retrieve (selector section)', 'table[] (unary code lengths)'], flags=['--unwind', '8', '--unwinding-assertions'],
+             expect=['accepted selector is the unary code value', 'selector rejected only if'], canaries=['CANARY selector accept path reached'], replayable=True))
+    A(Ob(name='decode.selector_cap', props=['C06'], kind='lemma', harness='h_decode.c', entry='h_selector_cap',
+         what='after the tables are read the number of selectors used is min(selectors read, 18001) for every count 1..32767',
+         functions=['retrieve (selector bound)'], flags=['--unwind', '260', '--unwinding-assertions'], expect=['selectors used = min'],
+         canaries=['CANARY group loop reached'], replayable=False))
+    for fill in (0, 1, 2):
+        A(Ob(name=f'decode.end_of_block.fill{fill}', props=['C05', 'C08', 'C06'], kind='bounded', harness='h_decode.c', entry='h_end_of_block', defines={'EOB_FILL': str(fill)},
+             bound=f'block already holds {fill} symbols; 8 symbolic input bits (then EOB) of a RUNA/RUNB/EOB-only table; pending run <= 3; primary index symbolic (24 bits)',
+             what='end of block in the real retrieve(): OK only if the block is non-empty and the primary index lies inside it; ERR_EMPTY / ERR_BWTIDX exactly otherwise',
+             functions=['retrieve (slow path, end of block)', 'make_tree'], timeout=900, 
+             checks=['--bounds-check', '--no-pointer-check', '--signed-overflow-check', '--undefined-shift-check'],     # no pointer check: tt_limit = tt + 900000 lies outside the stand-in array by construction
+             flags=['--unwind', '8', '--unwindset', ','.join(f'make_tree.{i}:1030' for i in range(13)) + ',retrieve.10:24,retrieve.11:24,retrieve.13:24', '--unwinding-assertions'],
+             expect=['OK only for a non-empty block', 'a block is accepted only if it is non-empty'], replayable=True,
+             assumed=['output array stands in with 64 entries (<= 21 symbols are produced); tt_limit is compared, never dereferenced', 'the retriever state is a static harness object (a malloc()ed 60 KB state makes every access a byte extract): free() of it is not checked here']))
     # ---------------- encode.c collect(): one-step conformance with the greedy packing rule (C04 O4.1, C01 O1.1, C02 O2.4)
     def collect_states(maxcap):
         for cap in range(1, maxcap + 1):
